@@ -546,9 +546,21 @@ def strat_table(tier):
 def run_table(case):
   tbl, cycles, mode = list(case["table"]), case["cycles"], case["mode"]
   L = len(tbl)
-  t = TableLookup(tbl, cycles=cycles) if cycles != 1 else TableLookup(tbl)
+  if (L + cycles + len(mode)) % 3 == 0:
+    # the table and the cycle count are plain attributes of an oscillator that is kept and
+    # re-programmed: what it plays afterwards is the interpolation of its *current* table
+    t = TableLookup(list(tbl) + [tbl[0], tbl[-1]], cycles=cycles + 1)
+    t(0.3).take(2)
+    t.table = tbl
+    t.cycles = cycles
+    reprogrammed = True
+  else:
+    t = TableLookup(tbl, cycles=cycles) if cycles != 1 else TableLookup(tbl)
+    reprogrammed = False
   amp = max(abs(fr(v)) for v in tbl)
   labels = ["table:" + mode, "L=1" if L == 1 else "L>1", "cycles=%d" % cycles]
+  if reprogrammed:
+    labels.append("table and cycles re-assigned")
   if mode == "getitem":
     idx = case["idx"]
     got = t[idx]
